@@ -7,6 +7,7 @@ import (
 	"regexp"
 	"sort"
 	"strings"
+	"sync"
 	"testing"
 
 	"github.com/zmap/zlint/v3/lint"
@@ -20,6 +21,8 @@ type c08Case struct {
 	Pre    *engine.FilterSpec `json:"pre,omitempty"` // registry being filtered = Filter(global, pre)
 	Opts   engine.FilterSpec  `json:"opts"`
 	ProbeN int                `json:"probe_n"`
+	// Late: the case presumes the first n late-registered harness lints (replays register them too)
+	Late int `json:"late,omitempty"`
 }
 
 type lintID struct {
@@ -110,6 +113,9 @@ func judgeC08(rec *stats.Rec, c c08Case) (string, string) {
 }
 
 func judgeC08Inner(rec *stats.Rec, c c08Case) (string, string) {
+	if c.Late > 0 {
+		registerLate(c.Late)
+	}
 	g := lint.GlobalRegistry()
 	old := g.GetConfiguration()
 	defer g.SetConfiguration(old)
@@ -220,6 +226,24 @@ func judgeC08Inner(rec *stats.Rec, c c08Case) (string, string) {
 	var p1 probeCfg
 	if err := got.GetConfiguration().Configure(&p1, "verif_probe"); err != nil || p1.X != c.ProbeN {
 		return "config-not-inherited", fmt.Sprintf("filtered registry does not carry the source's configuration (probe=%d, err=%v)", p1.X, err)
+	}
+	// non-empty options give a registry of its own (only empty options hand back the receiver): what is
+	// done to the result afterwards leaves the source registry unchanged
+	if !c.Opts.Empty() {
+		if other, err := lint.NewConfigFromString(fmt.Sprintf("[verif_probe]\nX = %d\n", c.ProbeN+1)); err == nil {
+			got.SetConfiguration(other)
+			var p2 probeCfg
+			if err := src.GetConfiguration().Configure(&p2, "verif_probe"); err != nil || p2.X != c.ProbeN {
+				return "source-changed|config-through-result", fmt.Sprintf("setting a configuration on the filtered registry changed the source registry's (probe %d -> %d)", c.ProbeN, p2.X)
+			}
+			if again, err := src.Filter(opts); err == nil && again != nil {
+				var p3 probeCfg
+				if err := again.GetConfiguration().Configure(&p3, "verif_probe"); err != nil || p3.X != c.ProbeN {
+					return "source-changed|config-through-result", "a second Filter of the source inherits a configuration that was set on the first result"
+				}
+			}
+			got.SetConfiguration(probe)
+		}
 	}
 	// NT: >= 2 populated fields (or error expectation handled above), result neither empty nor everything
 	pop := 0
@@ -419,6 +443,88 @@ func TestC08(t *testing.T) {
 			rec.Sample(c)
 		}
 	})
+	// lints of all three kinds registered late - one at a time, after Names() and Filter() have been used
+	// thousands of times - are filtered like any other ("certificate, CRL and OCSP alike"); the model reads
+	// the registry's per-kind listings, so it knows them
+	for i := range lateKinds {
+		registerLate(i + 1)
+		var late []string
+		for j := 0; j <= i; j++ {
+			late = append(late, lateName(j))
+		}
+		for _, c := range []c08Case{{Opts: engine.FilterSpec{IncludeNames: []string{lateName(i)}}}, {Opts: engine.FilterSpec{ExcludeNames: []string{"e_ca_country_name_missing"}}},
+			{Opts: engine.FilterSpec{IncludeSources: []string{"Community", "RFC5280", "RFC6960"}}}, {Opts: engine.FilterSpec{IncludeNames: late}}, {Opts: engine.FilterSpec{ExcludeNames: late}}} {
+			c.ProbeN, c.Late = 7, i+1
+			rec.Eval()
+			rec.Class("late_registration")
+			if sig, msg := judgeC08(rec, c); msg != "" {
+				if rec.Report("c08", sig, msg, c) {
+					t.Fatalf("c08 after late registration #%d (%s): %s: %s", i, lateName(i), sig, msg)
+				}
+			}
+		}
+	}
+	namesLate := lint.GlobalRegistry().Names()
+	rapidRun(t, "filter-after-late-registration", perShard(stats.Scale(2000, 50000)), func(rt *rapid.T) {
+		c := c08Case{ProbeN: rapid.IntRange(1, 1000000).Draw(rt, "probe"), Late: len(lateKinds), Opts: drawAnyFilter(rt, namesLate)}
+		if rapid.Bool().Draw(rt, "mentionlate") {
+			c.Opts.IncludeNames = append(c.Opts.IncludeNames, lateName(rapid.IntRange(0, len(lateKinds)-1).Draw(rt, "late")))
+			c.Opts.NameFilter = nil
+		}
+		rec.Eval()
+		if sig, msg := judgeC08(rec, c); msg != "" {
+			fail(rt, rec, "c08", sig, msg, c)
+		}
+	})
+}
+
+// lateLint is a do-nothing lint of any kind, registered through the public API after the registry has
+// long been in use (Names(), Filter() called thousands of times).
+type lateLint struct{}
+
+func (lateLint) CheckApplies(*zx509Cert) bool        { return false }
+func (lateLint) Execute(*zx509Cert) *lint.LintResult { return &lint.LintResult{Status: lint.Pass} }
+
+type lateCRL struct{}
+
+func (lateCRL) CheckApplies(*zx509CRL) bool        { return false }
+func (lateCRL) Execute(*zx509CRL) *lint.LintResult { return &lint.LintResult{Status: lint.Pass} }
+
+type lateOCSP struct{}
+
+func (lateOCSP) CheckApplies(*ocspResp) bool        { return false }
+func (lateOCSP) Execute(*ocspResp) *lint.LintResult { return &lint.LintResult{Status: lint.Pass} }
+
+var (
+	lateMu    sync.Mutex
+	lateCount int
+)
+
+// lateKinds is the order in which late lints are registered, one at a time; after each registration the
+// registry is listed and filtered again (every kind once right after a use of the registry, in two orders).
+var lateKinds = []string{"ocsp", "crl", "cert", "ocsp", "cert", "crl"}
+
+func lateName(i int) string { return fmt.Sprintf("e_verif_late_%d_%s", i, lateKinds[i]) }
+
+// registerLate makes sure the first n late lints are registered in the global registry of this process,
+// using the registry (Names, Filter) between registrations as a long-running program would.
+func registerLate(n int) {
+	lateMu.Lock()
+	defer lateMu.Unlock()
+	g := lint.GlobalRegistry()
+	for ; lateCount < n && lateCount < len(lateKinds); lateCount++ {
+		_ = g.Names()
+		_, _ = g.Filter(lint.FilterOptions{ExcludeNames: []string{"e_ca_country_name_missing"}})
+		md := lint.LintMetadata{Name: lateName(lateCount), Description: "late", Source: []lint.LintSource{lint.RFC6960, lint.RFC5280, lint.Community}[lateCount%3]}
+		switch lateKinds[lateCount] {
+		case "cert":
+			lint.RegisterCertificateLint(&lint.CertificateLint{LintMetadata: md, Lint: func() lint.CertificateLintInterface { return lateLint{} }})
+		case "crl":
+			lint.RegisterRevocationListLint(&lint.RevocationListLint{LintMetadata: md, Lint: func() lint.RevocationListLintInterface { return lateCRL{} }})
+		default:
+			lint.RegisterOcspResponseLint(&lint.OcspResponseLint{LintMetadata: md, Lint: func() lint.OcspResponseLintInterface { return lateOCSP{} }})
+		}
+	}
 }
 
 func init() {
